@@ -8,7 +8,7 @@
    correspondence check evaluates on the IMPLEMENTATION's observation. *)
 From Coq Require Import Floats.
 From Boltons Require Import Lib.Prelude Lib.C15_Float Spec.C15_Spec Model.C15_Model
-  Proofs.C15_Proofs Proofs.C15_ZInstance.
+  Proofs.C15_Proofs Proofs.C15_ZInstance Proofs.C15_Prim.
 
 (* ---- main theorem: the model refines the Spec --------------------------------- *)
 (* For all parameters (valid or not), both entry points, all counts, all jitter
@@ -142,6 +142,48 @@ Theorem C15_invalid_raises :
     run fo p fuel draws = mkObs [] (ERaise ValueError).
 Proof. exact @invalid_raises. Qed.
 Print Assumptions C15_invalid_raises.
+
+(* ---- binary64: the law records hold for Coq's primitive floats ------------------------------
+   Proved in Proofs/C15_Prim.v from Coq's FloatAxioms (specification of the primitive
+   operations by SpecFloat) through Flocq (Bmult_correct, Bminus_correct, Bcompare_correct,
+   monotone rounding).  Print Assumptions therefore lists FloatAxioms.*_spec, the primitive
+   types/operations and the axioms of Coq's classical real numbers. *)
+Theorem C15_binary64_laws : order_laws prim_ops /\ grow_laws prim_ops /\ jitter_laws prim_ops.
+Proof. exact (conj prim_order_laws (conj prim_grow_laws prim_jitter_laws)). Qed.
+Print Assumptions C15_binary64_laws.
+
+(* hence the main theorem for the very structure the correspondence check evaluates *)
+Theorem C15_binary64_refines_spec :
+  forall p fuel draws, draws_ok prim_ops draws ->
+    o_end (run prim_ops p fuel draws) <> EFuel ->
+    spec_holds prim_ops p (run prim_ops p fuel draws) = true \/ spec_known prim_ops p fuel = true.
+Proof. exact binary64_refines_spec. Qed.
+Print Assumptions C15_binary64_refines_spec.
+
+(* the default-count loop terminates in binary64 (cur strictly increases through the
+   finitely many multiples of 2^-1074 below 2^1024) ... *)
+Theorem C15_binary64_default_count_terminates :
+  forall start stop factor, PrimFloat.leb PrimFloat.zero start = true ->
+  exists fuel, forall c, default_count prim_ops fuel stop factor start c <> DCFuel.
+Proof. exact default_count_terminates. Qed.
+Print Assumptions C15_binary64_default_count_terminates.
+
+(* ... so, without jitter, the default-count clause holds with no proviso about fuel:
+   valid parameters, factor > 1, a sequence that never stalls below stop => backoff()
+   returns a list satisfying all clauses on the values whose last value is stop.
+   (Still _partial: the guard "never stalls" is the open finding's guard.) *)
+Theorem C15_binary64_default_count_last_is_stop_partial :
+  forall start stop factor j take,
+    let p := mkP ApiList start stop CNone factor j take in
+    must_raise prim_ops p = false -> jitter_off prim_ops j = true ->
+    PrimFloat.ltb PrimFloat.one factor = true ->
+    (forall n, stalls prim_ops stop factor start n = false) ->
+    exists fuel,
+      let o := run prim_ops p fuel [] in
+      o_end o = EStop /\ values_ok prim_ops p (o_vals o) = true /\
+      last_is prim_ops stop (o_vals o) = true.
+Proof. exact binary64_default_count_last_is_stop. Qed.
+Print Assumptions C15_binary64_default_count_last_is_stop_partial.
 
 (* ---- the hypotheses are inhabited ------------------------------------------------------ *)
 (* the three law records are jointly satisfiable (exact integer arithmetic) *)
